@@ -108,6 +108,21 @@ def run(ctx):
             e2 = dict(env, GIT_DIR=gitdir)
             modes["GIT_DIR"] = subprocess.run([ctx["bins"]["sizer"]] + args, cwd=scratch, env=e2, stdout=subprocess.PIPE, stderr=subprocess.PIPE)
             modes["git -C"] = subprocess.run(["git", "-C", d, "sizer"] + args, cwd=scratch, env=env, stdout=subprocess.PIPE, stderr=subprocess.PIPE)
+            # the caller stands in ANOTHER repository (its top level, a subdirectory, its .git) and names this one
+            oth = S.Scenario()
+            ob = oth.add({"kind": "blob", "data": b"other repository\n"})
+            ot = oth.add({"kind": "tree", "entries": [(0o100644, b"o", ob)]})
+            oth.refs.append((b"refs/heads/elsewhere", oth.add({"kind": "commit", "tree": ot, "parents": []})))
+            oth.compute()
+            od = os.path.join(scratch, "other%d" % it)
+            ogit = oth.materialise(od)
+            osub = os.path.join(od, "deep", "er")
+            os.makedirs(osub, exist_ok=True)
+            modes["GIT_DIR, from the top of another repository"] = subprocess.run([ctx["bins"]["sizer"]] + args, cwd=od, env=e2, stdout=subprocess.PIPE, stderr=subprocess.PIPE)
+            modes["GIT_DIR, from a subdirectory of another repository"] = subprocess.run([ctx["bins"]["sizer"]] + args, cwd=osub, env=e2, stdout=subprocess.PIPE, stderr=subprocess.PIPE)
+            modes["GIT_DIR, from inside another repository's .git"] = subprocess.run([ctx["bins"]["sizer"]] + args, cwd=ogit, env=e2, stdout=subprocess.PIPE, stderr=subprocess.PIPE)
+            modes["git --git-dir, from the top of another repository"] = subprocess.run(["git", "--git-dir", gitdir, "sizer"] + args, cwd=od, env=env, stdout=subprocess.PIPE, stderr=subprocess.PIPE)
+            modes["git -C, from the top of another repository"] = subprocess.run(["git", "-C", d, "sizer"] + args, cwd=od, env=env, stdout=subprocess.PIPE, stderr=subprocess.PIPE)
             wt = os.path.join(scratch, "wt%d" % it)
             r = git(["worktree", "add", "-q", "--detach", wt], d, env, check=False)
             if r.returncode == 0:
